@@ -213,7 +213,7 @@ struct SolverTarget : Target {
         case K_Q0XX: a.v.push_back(o->q0_xx(op.a, op.b)); break;
         case K_LINDEP: a.v.push_back(o->lindep(op.a) ? 1 : 0); break;
         case K_MINX_ALL: o->min_x(); cfg_minx = -1; a.isvoid = true; break;
-        case K_MINX_S: { std::vector<int> s = p.subsets[op.a]; o->min_x((int)s.size(), s.data()); cfg_minx = op.a; a.isvoid = true; break; }
+        case K_MINX_S: { std::vector<int> s = p.subsets[op.a]; cfg_minx = op.a; a.isvoid = true; o->min_x((int)s.size(), s.data()); break; }   // the list is recorded even if an immediate re-regularisation throws
         case K_RESET:
           if (kind == 0) static_cast<TEnv*>(o)->reset(data); else static_cast<TFull*>(o)->reset(A, b);
           a.isvoid = true; break;
@@ -532,6 +532,12 @@ struct Explorer {
     return mp[k] = a;
   }
 
+  // configurations whose adjustment is refused (e.g. a regularisation subset that cannot fix the datum) form a class of their own
+  std::string cls_of(const std::vector<int>& cfg) {
+    std::string cls = p.nullity ? "defect>0" : "defect=0";
+    for (size_t i = 0; i < ops.size(); i++) if (ops[i].kind == K_UNK || ops[i].kind == K_ADJ_X || ops[i].kind == N_SOLVE) { if (!reference(cfg, (int)i, true).exc.empty()) cls += "|refused-config"; break; }
+    return cls;
+  }
   // one transition: history h, then op oi; oracle as in run().  Returns false when the op was not executed (crash probe).
   void judge(const std::vector<int>& h, int oi, Target& t) {
     std::vector<int> cfg = t.cfgv();
@@ -543,7 +549,7 @@ struct Explorer {
     if (same(a, r)) { O(std::string("agree-unmerged:") + KIND[kind]); return; }
     const Answer& f = reference(cfg, oi, false);
     std::string opn = ops[oi].name.substr(0, ops[oi].name.find('('));
-    std::string cls = p.nullity ? "defect>0" : "defect=0";
+    std::string cls = cls_of(cfg);
     if (same(a, f)) return;     // first-query class: reported by the merged search
     V(std::string("C04|history|") + KIND[kind] + "|" + opn + "|" + cls, casestr(h, oi),
       "history [" + histstr(h) + "] then " + ops[oi].name + " = " + a.show() + " ; fresh object = " + r.show() + " (cfg " + cfgstr(cfg) + ")");
@@ -618,7 +624,7 @@ struct Explorer {
           if (!same(a, r)) {
             const Answer& f = reference(cfg, oi, false);
             std::string opn = ops[oi].name.substr(0, ops[oi].name.find('('));
-            std::string cls = p.nullity ? "defect>0" : "defect=0";
+            std::string cls = cls_of(cfg);
             if (same(a, f)) {
               // the accessor does not trigger the computation it needs: the very first query answers differently
               V(std::string("C04|first-query|") + KIND[kind] + "|" + opn + "|" + cls, casestr(h, oi),
@@ -663,13 +669,13 @@ static std::vector<Problem> problems() {
   // chain of 4 (defect 1), profile leaves (1,3),(1,4),(2,4) outside the envelope
   P.push_back(mk("chain4", 4, {row(4, {{1, -1}, {2, 1}}), row(4, {{2, -1}, {3, 1}}), row(4, {{3, -1}, {4, 1}}), row(4, {{1, -1}, {2, 1}})}, {{4}, {1, 2}}));
   // two disconnected pairs (defect 2)
-  P.push_back(mk("split4", 4, {row(4, {{1, -1}, {2, 1}}), row(4, {{3, -1}, {4, 1}}), row(4, {{1, -1}, {2, 1}}), row(4, {{3, -1}, {4, 1}})}, {{1, 3}, {2, 3, 4}}));
+  P.push_back(mk("split4", 4, {row(4, {{1, -1}, {2, 1}}), row(4, {{3, -1}, {4, 1}}), row(4, {{1, -1}, {2, 1}}), row(4, {{3, -1}, {4, 1}})}, {{1, 3}, {2, 3, 4}, {1, 2}}));   // {1,2} cannot fix the second pair: BadRegularization, again and again
   // regular, non unimodular rows
   P.push_back(mk("reg4", 4, {row(4, {{1, 2}, {2, 1}}), row(4, {{2, 1}, {3, 1}, {4, 1}}), row(4, {{1, 1}, {2, -2}, {3, 1}}), row(4, {{4, 1}}), row(4, {{1, 1}}), row(4, {{3, -1}, {4, 1}})}, {{1}, {2, 3}}));
   // empty column (defect 1) + chain
   P.push_back(mk("empty-col", 4, {row(4, {{1, 1}}), row(4, {{1, -1}, {2, 1}}), row(4, {{2, -1}, {4, 1}}), row(4, {{1, -1}, {4, 1}})}, {{3}, {1, 3}}));
   // star with 2 dependent directions (defect 2, 3-nonzero rows)
-  P.push_back(mk("tri3", 3, {row(3, {{1, 1}, {2, 1}, {3, 1}}), row(3, {{1, 1}, {2, 1}, {3, 1}})}, {{1, 2}, {2, 3}}));
+  P.push_back(mk("tri3", 3, {row(3, {{1, 1}, {2, 1}, {3, 1}}), row(3, {{1, 1}, {2, 1}, {3, 1}})}, {{1, 2}, {2, 3}, {1}}));   // {1}: one unknown against nullity 2
   // the same systems with a banded covariance block (explored through GNU_gama::Adj only, which homogenises)
   { size_t n0 = P.size(); for (size_t i = 0; i < n0; i++) if (P[i].name == "loop5" || P[i].name == "reg4" || P[i].name == "split4") { Problem q = P[i]; q.name += "+corr"; q.corr = true; P.push_back(q); } }
   // LocalNetwork problems (input files generated by data/c04/make.py)
